@@ -39,11 +39,12 @@ def check(tier):
     sd = seed()
     binary = build_harness()
     # ---- design half
-    mcs = [(2, 2, "{11}"), (3, 1, "{11}")] if tier == "quick" else \
-          [(2, 2, "{11, 21}"), (3, 1, "{11}"), (3, 2, "{11}"), (4, 1, "{}")]
+    mcs = [(2, 2, "{11}", "{22}"), (3, 1, "{11}", "{21}")] if tier == "quick" else \
+          [(2, 2, "{11, 21}", "{}"), (2, 2, "{11}", "{12, 21}"), (3, 1, "{11}", "{31}"),
+           (3, 2, "{11}", "{21, 32}"), (4, 1, "{}", "{11}")]
     runs = []
-    for n, muts, nest in mcs:
-        consts = dict(Callers=cset(n), MutsPer=muts, NestCodes=nest, Recheck=True)
+    for n, muts, nest, prepc in mcs:
+        consts = dict(Callers=cset(n), MutsPer=muts, NestCodes=nest, PrepCodes=prepc, Recheck=True)
         r = tlcrun.run_tlc("MCQueue", dict(spec="Spec", consts=consts, invariants=INV),
                            workers=8, timeout=1200)
         if r["violated"] or (r["errors"] and not r["timed_out"]):
@@ -53,7 +54,7 @@ def check(tier):
                          wall_s=round(r["wall"], 1), timed_out=r["timed_out"]))
     # liveness on the unconstrained fair spec
     r = tlcrun.run_tlc("MCQueue", dict(spec="FairSpec", consts=dict(Callers=cset(2), MutsPer=2,
-                       NestCodes="{11}", Recheck=True), properties=["EventuallyProcessed"]),
+                       NestCodes="{11}", PrepCodes="{22}", Recheck=True), properties=["EventuallyProcessed"]),
                        workers=4, timeout=900)
     if r["violated"] or "Temporal properties were violated" in r["out"] or \
             (r["errors"] and not r["timed_out"]):
@@ -68,25 +69,30 @@ def check(tier):
     try:
         # (callers, muts, nest, veto, mode)
         if tier == "quick":
-            plan = [(2, 1, "", "", ["-enum", "-max", "4000"]),
-                    (2, 1, "", "2.1", ["-random", "600"]),
-                    (2, 2, "1.1", "", ["-random", "300"]),
-                    (3, 1, "1.1", "3.1", ["-random", "300"]),
-                    (8, 40, "", "", ["-free", "100"])]
+            plan = [(2, 1, "", "", "", ["-enum", "-max", "4000"]),
+                    (2, 1, "", "2.1", "", ["-random", "500"]),
+                    (2, 2, "1.1", "", "", ["-random", "300"]),
+                    (3, 1, "1.1", "3.1", "", ["-random", "300"]),
+                    (2, 1, "", "", "1.1", ["-enum", "-max", "3000"]),       # Eval vs Add
+                    (3, 2, "", "", "2.2,3.1", ["-random", "400"]),          # CanAdd / Eval queued behind a drain
+                    (8, 40, "", "", "", ["-free", "100"])]
         else:
-            plan = [(2, 1, "", "", ["-enum"]),
-                    (2, 1, "1.1", "", ["-enum", "-max", "60000"]),
-                    (2, 1, "", "2.1", ["-enum", "-max", "60000"]),
-                    (2, 2, "1.1", "", ["-enum", "-max", "60000"]),
-                    (3, 1, "1.1", "3.1", ["-random", "20000"]),
-                    (3, 2, "1.1,2.2", "", ["-random", "10000"]),
-                    (4, 2, "1.1", "2.1", ["-random", "5000"]),
-                    (8, 40, "", "", ["-free", "2000"]),
-                    (16, 25, "", "", ["-free", "1000"])]
+            plan = [(2, 1, "", "", "", ["-enum"]),
+                    (2, 1, "1.1", "", "", ["-enum", "-max", "60000"]),
+                    (2, 1, "", "2.1", "", ["-enum", "-max", "60000"]),
+                    (2, 1, "", "", "1.1", ["-enum", "-max", "60000"]),
+                    (2, 2, "1.1", "", "", ["-enum", "-max", "60000"]),
+                    (2, 2, "", "", "1.2,2.1", ["-enum", "-max", "60000"]),
+                    (3, 1, "1.1", "3.1", "", ["-random", "20000"]),
+                    (3, 2, "1.1,2.2", "", "", ["-random", "10000"]),
+                    (3, 2, "", "", "2.2,3.1", ["-random", "10000"]),
+                    (4, 2, "1.1", "2.1", "3.2,4.1", ["-random", "5000"]),
+                    (8, 40, "", "", "", ["-free", "2000"]),
+                    (16, 25, "", "", "", ["-free", "1000"])]
         nexec = nlines = 0
         samples = []
         distinct = set()
-        for i, (n, muts, nest, veto, mode) in enumerate(plan):
+        for i, (n, muts, nest, veto, prep, mode) in enumerate(plan):
             pref = os.path.join(d, "q%d" % i)
             cmd = [binary, "queue", "-callers", str(n), "-muts", str(muts), "-seed", str(sd * 10 + i),
                    "-out", pref] + mode
@@ -94,6 +100,8 @@ def check(tier):
                 cmd += ["-nest", nest]
             if veto:
                 cmd += ["-veto", veto]
+            if prep:
+                cmd += ["-prep", prep]
             rc, out = run(cmd, timeout=3000)
             if rc != 0:
                 raise Inconclusive("queue driver failed: " + out[-2000:])
@@ -103,8 +111,10 @@ def check(tier):
             files = sorted(glob.glob(pref + ".*.ndjson"))
             nestcodes = "{" + ", ".join(str(int(x.split(".")[0]) * 10 + int(x.split(".")[1]))
                                         for x in nest.split(",") if x) + "}"
+            prepcodes = "{" + ", ".join(str(int(x.split(".")[0]) * 10 + int(x.split(".")[1]))
+                                        for x in prep.split(",") if x) + "}"
             consts = dict(Callers=cset(n), MutsPer=muts, NestCodes=nestcodes if "-free" not in mode else "{}",
-                          Recheck=True)
+                          PrepCodes=prepcodes, Recheck=True)
             res = tlcrun.validate_traces("TraceQueue", consts, files, timeout=3000)
             for r in res:
                 if r["result"] is None:
@@ -124,7 +134,7 @@ def check(tier):
                     while not lines[e].startswith('{"ev":"qend"'):
                         e += 1
                     init, end = json.loads(lines[s]), json.loads(lines[e])
-                    sig = dict(formula=f, scenario={k: init[k] for k in ("callers", "mutsPer", "nest", "veto")},
+                    sig = dict(formula=f, scenario={k: init[k] for k in ("callers", "mutsPer", "nest", "veto", "prep")},
                                sched=end.get("sched"))
                     rep.violation(sig, dict(kind="queue", property=PROP, formula=f,
                                             scenario=sig["scenario"], sched=end.get("sched"),
@@ -137,7 +147,7 @@ def check(tier):
                 for ln in open(fn):
                     if ln.startswith('{"ev":"qend"'):
                         e = json.loads(ln)
-                        distinct.add((n, muts, nest, veto, tuple(e.get("sched") or [])))
+                        distinct.add((n, muts, nest, veto, prep, tuple(e.get("sched") or [])))
                         if len(samples) < 3 and any(x["res"] == "queued" for x in e["returned"]):
                             samples.append(dict(scenario=dict(callers=n, muts=muts, nest=nest, veto=veto),
                                                 schedule=e.get("sched"), returned=e["returned"][:4],
@@ -175,10 +185,11 @@ def replay(path):
             cmd = [binary, "queue", "-sched", os.path.join(d, "s.json"), "-out", os.path.join(d, "r"),
                    "-shards", "1"]
             nest = "{" + ", ".join(str(a * 10 + b) for a, b in sc["nest"]) + "}"
+        prepc = "{" + ", ".join(str(a * 10 + b) for a, b in sc.get("prep", [])) + "}"
         rc, out = run(cmd, timeout=600)
         if rc != 0:
             raise Inconclusive(out[-1500:])
-        consts = dict(Callers=cset(sc["callers"]), MutsPer=sc["mutsPer"], NestCodes=nest, Recheck=True)
+        consts = dict(Callers=cset(sc["callers"]), MutsPer=sc["mutsPer"], NestCodes=nest, PrepCodes=prepc, Recheck=True)
         res = tlcrun.validate_traces("TraceQueue", consts, [os.path.join(d, "r.0.ndjson")])
         for r in res:
             if r["result"] is None:
